@@ -440,6 +440,9 @@ func verifyAndFillConfig(cfg *ResponseConfig, nowMS int) error {
 	if cfg.StopTimeS != nil && timeSOutOfRange(float64(*cfg.StopTimeS)) {
 		return fmt.Errorf("stop time %ds is out of range", *cfg.StopTimeS)
 	}
+	if cfg.StopTimeS != nil && *cfg.StopTimeS < cfg.StartTimeS {
+		return fmt.Errorf("stop time %ds is before start time %ds", *cfg.StopTimeS, cfg.StartTimeS)
+	}
 	if cfg.TimeOffsetS != nil && timeSOutOfRange(*cfg.TimeOffsetS) {
 		return fmt.Errorf("timeoffset %fs is out of range", *cfg.TimeOffsetS)
 	}
